@@ -73,7 +73,7 @@ pub fn coordinated(fx: &Fixture, parts: &mut Parts, tier: Tier) -> Vec<SiteGroup
     let mut out: Vec<SiteGroup> = Vec::new();
     let names: Vec<String> = parts.zip.as_ref().map(|z| z.iter().map(|e| e.name.clone()).collect()).unwrap_or_default();
     let thorough = tier == Tier::Thorough;
-    let mut push = |faults: Vec<StoredFault>, light: bool, out: &mut Vec<SiteGroup>| out.push(SiteGroup { inner: None, faults, light });
+    let mut push = |faults: Vec<StoredFault>, light: bool, out: &mut Vec<SiteGroup>| out.push(SiteGroup { inner: None, faults, light, scaling: false });
     match fx.format {
         Format::Xlsx => {
             let wb_rels = "xl/_rels/workbook.xml.rels";
